@@ -184,6 +184,9 @@ func sameValue(a, b ssa.Value, depth int) bool {
 	if depth > 3 {
 		return false
 	}
+	if sameLoad(a, b) {
+		return true
+	}
 	if ka, ok := constInt(a); ok {
 		if kb, ok := constInt(b); ok {
 			return ka == kb
